@@ -48,8 +48,8 @@ ASSUMPTIONS = [
     "staging happens under tempfile.tempdir, which the check points at a private directory that is part of the snapshot",
     "rmtree / remove faults are injected only for calls made by serializer code (not for TemporaryDirectory's own clean-up)",
 ]
-BUDGET = {"quick": {"soft_s": 110}, "thorough": {"soft_s": 570}}
-MIN_EVALUATIONS = {"quick": 300, "thorough": 2000}
+BUDGET = {"quick": {"soft_s": 75}, "thorough": {"soft_s": 540}}
+MIN_EVALUATIONS = {"quick": 250, "thorough": 1000}
 REQUIRED_COUNTERS = ["eval:target_state_after_failed_save", "eval:other_paths_unchanged", "eval:write_once_target_unchanged", "injected:line", "injected:io", "injected:natural"]
 # thorough: every k and every j of every configuration of the graphs used (see plan); a time-budget skip clears the flag in the driver
 EXHAUSTIVE = {"quick": False, "thorough": True}
